@@ -412,7 +412,9 @@ def check_C10(ctx):
     scen += [x for x in vt.tlc_generate(ctx, 'GenRun', 'C19', 0) if x['run']['protocol'] == 'tcp' and '2001:' in x['run']['hostname'] and x['run'].get('via', 'lib') == 'lib'][:12]
     # ... and the enrichment services misbehaving (slow / failing / stalled resolver and public-IP provider): nothing outlives the call
     enr = vt.tlc_generate(ctx, 'GenRun', 'C10', 0)
-    scen += enr[ctx.seed % 2::2] if ctx.quick() else enr
+    scen += ([x for x in enr if '/query_fails' in x['id']] + [x for x in enr if '/query_fails' not in x['id']][ctx.seed % 2::2]) if ctx.quick() else enr
+    # cancellation of the caller's context at every instant of the grid (the ICMP and SACK entry points take it): handles closed once, by their owner
+    scen += [x for x in vt.tlc_generate(ctx, 'GenWire', 'C08', 0) if '/cancel/' in x['id']]
     wire_family(ctx, 'C10', scen, rule, nontrivial=lambda s, es: any(e['event'] == 'Fault' for e in es) or '/enrich/' in s['id'])
     ctx.extra['rule'] = rule + '; plus ' + (WIRE_RULE % 'C10All (the k-th call of every Source/Sink operation and constructor x error class, on every protocol entry point)') + '; non-trivial = the fault fired'
     vt.write_evidence(ctx, 'model_checking', ctx_rule(ctx), exhaustive=True)
